@@ -13,6 +13,45 @@ CHECKS = [
         "Field lines are decided only for fields that can be re-located verbatim in the entry's raw text (all fields of parsed entries).",
         "technique": "stateless bounded-exhaustive model checking of the implementation (token sequences + deviation-bounded edits), cursor-walk invariant",
     },
+    {
+        "id": "C01",
+        "text": "Bounded-exhaustive exploration of parse_string -> write_string (default and empty stacks) on the real code: every token "
+        "sequence over the 17-token splitter alphabet up to length 5 (quick) / 6 (thorough, plus an extended alphabet with CRLF, NBSP, "
+        "non-ASCII, form feed, U+2028 to 5), every combination of <=1/<=2 token edits of 6 base documents, and 38 size-scaled families "
+        "(blank/comment/value lines, nesting depth, entries, unterminated blocks, ...) at sizes up to 10^4 (quick) / 10^6 (thorough). "
+        "Oracle: no exception of any kind, Library/str results, every failed block carries an Exception and a non-empty raw taken from "
+        "the input; hangs via a generous watchdog.",
+        "note": "Inputs outside the alphabets/families and larger than the stated sizes are not covered. 'No hang' can only be decided by a time bound (120 s / 900 s per case).",
+        "technique": "stateless bounded-exhaustive model checking of the implementation (token sequences, deviation-bounded edits, size-scaled families)",
+    },
+    {
+        "id": "C02",
+        "text": "Bounded-exhaustive exploration against a reference recogniser of the dialect grammar plus constructive ground truth: all value "
+        "token sequences <=5/<=6 that are well-formed values, in three contexts; ~128k generated entries (heads x keys x field lists over a "
+        "17-value catalogue x comma forms x whitespace at every gap); all documents of <=2/<=3 catalogue blocks x gap texts; all splitter-alphabet "
+        "token sequences <=5/<=6 accepted by the recogniser. Oracle: exact block list (class, lower-cased type, key, field keys in order, verbatim values, "
+        "comment/preamble/string text), no failed block, both via Splitter and parse_string(parse_stack=[]).",
+        "note": "Well-formed means derivable from the grammar in DESIGN.md 3.1 with restrictions R1-R6; the recogniser is trusted for L4 (validated by agreement with the constructive oracle on L1-L3 and by selftest).",
+        "technique": "bounded-exhaustive model checking of the implementation against a reference recogniser (two-oracle rule)",
+    },
+    {
+        "id": "C04",
+        "text": "Bounded-exhaustive exploration of triples D1.X.'\\n'.D2 on the real parser: 4 well-formed prefixes x 5 well-formed suffixes x every "
+        "token sequence X over the splitter alphabet up to length 4 (quick) / 5 (thorough) plus every prefix and single-token edit of 6 valid blocks; "
+        "splitter-only and default stack. Oracle (differential): the first blocks equal those of D1 parsed alone in full, the last blocks equal those of D2 "
+        "parsed alone in class, content, raw, metadata and start lines shifted by the lines before D2.",
+        "note": "Key pools of D1, X, D2 are disjoint by construction; X beyond the length bound is not covered.",
+        "technique": "bounded-exhaustive model checking of the implementation with a differential oracle (parse of parts vs parse of concatenation)",
+    },
+    {
+        "id": "C08",
+        "text": "Explicit-state breadth-first closure of the reachable state graph of real Library objects under add/remove/replace (all argument forms and flags) "
+        "over a universe of 7 (quick) / 9 (thorough) blocks with forced key collisions, libraries pruned at length 3 / 4, from 4 initial states, plus all histories of "
+        "length <=2 / <=3 without deduplication. After every call (also raising ones) the object is compared with a list+dict reference model and the identity/partition "
+        "invariants; ValueError must leave the canonical state unchanged. F9 (add with fail_on_duplicate_key raises after inserting) is a recorded known finding.",
+        "note": "Universe and length bound as stated; canonical-state deduplication is justified in DESIGN 4/C08 and guarded by the no-dedup run.",
+        "technique": "explicit-state model checking (BFS over operation histories on the real object, reference model, canonical-state deduplication)",
+    },
 ]
 
 _claimed = {c["id"] for c in CHECKS}
